@@ -164,6 +164,159 @@ func checkC18(w *World, r *Report) {
 	}
 	r.OK("per-job.no-globals", "module: package-level state", "-", "no package-level variable holds a variable container, task runner, scheduler or executor")
 	// ---- RESERVED NAME
+	checkReservedVariable(w, r, ro)
+	// ---- STAGE VARIABLES WIN: the variables a task runs with (script rendering, job identity)
+	// are the stage's, i.e. the job's: wherever the stage runner composes Task.Variables, the
+	// stage's container is the argument of the merge (the argument wins, order.upstream-merge) —
+	// unless nothing in the module ever gives a task variables of its own.
+	if rs := runStageFn(w); rs == nil {
+		r.Undecided("order.stage-variables", "taskctl: stage runner", "-", "the function that runs one stage is not found")
+	} else {
+		isTaskVars := func(addr ssa.Value) bool {
+			fa, ok := w.resolveAddr(addr).(*ssa.FieldAddr)
+			return ok && fieldOfAddr(fa).String() == "Task.Variables"
+		}
+		var otherWriters []string
+		for _, fn := range w.ModFuncs {
+			if fn == rs {
+				continue
+			}
+			allInstrs(fn, func(in ssa.Instruction) {
+				if st, ok := in.(*ssa.Store); ok && isTaskVars(st.Addr) {
+					otherWriters = append(otherWriters, FuncName(fn)+" ("+w.InstrPos(in)+": "+w.AP(st.Val)+")")
+				}
+			})
+		}
+		n := 0
+		allInstrs(rs, func(in ssa.Instruction) {
+			st, ok := in.(*ssa.Store)
+			if !ok || !isTaskVars(st.Addr) {
+				return
+			}
+			n++
+			val := w.AP(st.Val)
+			stageWins := val == "arg0.Variables"
+			if c, ok := w.Resolve(st.Val).(*ssa.Call); ok && strings.HasSuffix(calleeName(&c.Call), "variables.Merge") && len(c.Call.Args) == 2 {
+				stageWins = w.AP(c.Call.Args[1]) == "arg0.Variables"
+			}
+			r.Check(stageWins || len(otherWriters) == 0, "order.stage-variables", FuncName(rs)+": Task.Variables := "+strings.TrimPrefix(val, "github.com/taskctl/taskctl/pkg/"), w.InstrPos(in),
+				"the stage's variables (the job's variables and its identity) are what the task runs with", "the task's variables are composed as "+val+" — the stage's container is not the winning argument — while "+strings.Join(otherWriters, ", ")+" gives tasks variables of their own: a task-level name replaces the job's variable of the same name in the rendered script, and a task-level __jobID attributes the task's logs and state to another job")
+		})
+		if n == 0 {
+			r.Viol("order.stage-variables", FuncName(rs)+": Task.Variables", w.Pos(rs.Pos()), "the stage runner never hands the stage's variables to the task: scripts are rendered without the job's variables")
+		}
+	}
+	// TaskRunner reads the job id from the task's own variables
+	r.Floor("order.", 6)
+	r.Floor("wiring", 8)
+	r.Floor("per-job.", 3)
+	r.Floor("reserved.", 2)
+}
+
+func checkUpstreamMerge(w *World, r *Report) {
+	var vp *ssa.Package
+	for _, p := range w.Prog.AllPackages() {
+		if strings.HasSuffix(p.Pkg.Path(), "taskctl/pkg/variables") {
+			vp = p
+		}
+	}
+	if vp == nil {
+		r.Undecided("order.upstream-merge", "upstream variables package", "-", "not loaded")
+		return
+	}
+	m := w.FuncByNameIn(vp, "Variables).Merge")
+	if m == nil {
+		r.Undecided("order.upstream-merge", "upstream Variables.Merge", "-", "not found")
+		return
+	}
+	var rRecv, rArg ssa.Instruction
+	allInstrs(m, func(in ssa.Instruction) {
+		if rg, ok := in.(*ssa.Range); ok {
+			ap := w.AP(rg.X)
+			if strings.HasSuffix(ap, "Variables).Map(recv)") {
+				rRecv = in
+			}
+			if ap == "arg0.Map()" {
+				rArg = in
+			}
+		}
+	})
+	// the argument's range is after the receiver's: not reachable back from the argument loop
+	ok := rRecv != nil && rArg != nil && !(PathQuery{Fn: m, Start: []ssa.Instruction{rArg}, Target: func(x ssa.Instruction) bool { return x == rRecv }}).Find().Found &&
+		(PathQuery{Fn: m, Start: []ssa.Instruction{rRecv}, Target: func(x ssa.Instruction) bool { return x == rArg }}).Find().Found
+	// every return passes the argument loop
+	esc := PathQuery{Fn: m, Target: isReturn, BlockInstr: func(x ssa.Instruction) bool { return x == rArg }}.Find()
+	r.Check(ok && !esc.Found, "order.upstream-merge", "upstream variables.Merge: argument applied after the receiver", w.Pos(m.Pos()), "entries of the receiver are set first, then the argument's (the argument wins)", "upstream Merge no longer applies the argument after the receiver: the modelled precedence is wrong")
+	wi := w.FuncByNameIn(vp, "Variables).With")
+	if wi != nil {
+		pr := w.EnumPaths(wi, EnumOpts{})
+		okW := false
+		for _, p := range pr.Paths {
+			mi, si := -1, -1
+			for i, e := range p.Effects {
+				if e.Kind == "call" && strings.HasSuffix(e.Target, "Variables).Merge") {
+					mi = i
+				}
+				if e.Kind == "call" && strings.HasSuffix(e.Target, "Variables).Set") && strings.HasSuffix(e.Val, ",arg0,arg1") {
+					si = i
+				}
+			}
+			okW = mi >= 0 && si > mi
+		}
+		r.Check(okW, "order.upstream-with", "upstream variables.With: copy then set", w.Pos(wi.Pos()), "With copies the receiver and then sets the key (the new value wins)", "upstream With no longer sets the key after copying")
+	}
+}
+
+// FuncByNameIn finds a function or method by name in an arbitrary SSA package.
+func (w *World) FuncByNameIn(p *ssa.Package, name string) *ssa.Function {
+	for fn := range w.allFuncs() {
+		if fn.Package() == p && strings.HasSuffix(FuncName(fn), name) && fn.Synthetic == "" {
+			return fn
+		}
+	}
+	return nil
+}
+
+var _ = fmt.Sprint
+
+// deepCalls visits the calls of fn and of the module functions fn calls statically (depth ≤ max);
+// during a visit inside a helper its parameters are bound to what the call site passes, so access
+// paths are rendered in fn's terms.
+func (w *World) deepCalls(fn *ssa.Function, max int, visit func(c *ssa.Call)) {
+	saved := w.paramEnv
+	defer func() { w.paramEnv = saved }()
+	var rec func(f *ssa.Function, env map[*ssa.Parameter]ssa.Value, d int)
+	rec = func(f *ssa.Function, env map[*ssa.Parameter]ssa.Value, d int) {
+		allInstrs(f, func(in ssa.Instruction) {
+			c, ok := in.(*ssa.Call)
+			if !ok {
+				return
+			}
+			w.paramEnv = env
+			visit(c)
+			g := c.Call.StaticCallee()
+			if g == nil || g.Blocks == nil || !w.InModule(g) || g == f || d >= max {
+				return
+			}
+			sub := map[*ssa.Parameter]ssa.Value{}
+			for k, v := range env {
+				sub[k] = v
+			}
+			for i, p := range g.Params {
+				if i < len(c.Call.Args) {
+					sub[p] = w.Resolve(c.Call.Args[i])
+				}
+			}
+			rec(g, sub, d+1)
+			w.paramEnv = env
+		})
+	}
+	rec(fn, saved, 0)
+}
+
+// checkReservedVariable: the job-identity variable of a stage is the job's own id and cannot be
+// overwritten by a job-supplied variable (shared by C18 and C19: output is attributed through it).
+func checkReservedVariable(w *World, r *Report, ro *Roles) {
 	gb := ro.GraphBuild
 	if gb == nil {
 		r.Undecided("reserved", "graph builder", "-", "not resolved")
@@ -321,151 +474,4 @@ func checkC18(w *World, r *Report) {
 		})
 		r.Check(inLoop, "per-job.stage-variables", vname+": one variable container per stage", w.Pos(vfn.Pos()), "the container is created inside the stage loop", "stages share one variable container")
 	}
-	// ---- STAGE VARIABLES WIN: the variables a task runs with (script rendering, job identity)
-	// are the stage's, i.e. the job's: wherever the stage runner composes Task.Variables, the
-	// stage's container is the argument of the merge (the argument wins, order.upstream-merge) —
-	// unless nothing in the module ever gives a task variables of its own.
-	if rs := runStageFn(w); rs == nil {
-		r.Undecided("order.stage-variables", "taskctl: stage runner", "-", "the function that runs one stage is not found")
-	} else {
-		isTaskVars := func(addr ssa.Value) bool {
-			fa, ok := w.resolveAddr(addr).(*ssa.FieldAddr)
-			return ok && fieldOfAddr(fa).String() == "Task.Variables"
-		}
-		var otherWriters []string
-		for _, fn := range w.ModFuncs {
-			if fn == rs {
-				continue
-			}
-			allInstrs(fn, func(in ssa.Instruction) {
-				if st, ok := in.(*ssa.Store); ok && isTaskVars(st.Addr) {
-					otherWriters = append(otherWriters, FuncName(fn)+" ("+w.InstrPos(in)+": "+w.AP(st.Val)+")")
-				}
-			})
-		}
-		n := 0
-		allInstrs(rs, func(in ssa.Instruction) {
-			st, ok := in.(*ssa.Store)
-			if !ok || !isTaskVars(st.Addr) {
-				return
-			}
-			n++
-			val := w.AP(st.Val)
-			stageWins := val == "arg0.Variables"
-			if c, ok := w.Resolve(st.Val).(*ssa.Call); ok && strings.HasSuffix(calleeName(&c.Call), "variables.Merge") && len(c.Call.Args) == 2 {
-				stageWins = w.AP(c.Call.Args[1]) == "arg0.Variables"
-			}
-			r.Check(stageWins || len(otherWriters) == 0, "order.stage-variables", FuncName(rs)+": Task.Variables := "+strings.TrimPrefix(val, "github.com/taskctl/taskctl/pkg/"), w.InstrPos(in),
-				"the stage's variables (the job's variables and its identity) are what the task runs with", "the task's variables are composed as "+val+" — the stage's container is not the winning argument — while "+strings.Join(otherWriters, ", ")+" gives tasks variables of their own: a task-level name replaces the job's variable of the same name in the rendered script, and a task-level __jobID attributes the task's logs and state to another job")
-		})
-		if n == 0 {
-			r.Viol("order.stage-variables", FuncName(rs)+": Task.Variables", w.Pos(rs.Pos()), "the stage runner never hands the stage's variables to the task: scripts are rendered without the job's variables")
-		}
-	}
-	// TaskRunner reads the job id from the task's own variables
-	r.Floor("order.", 6)
-	r.Floor("wiring", 8)
-	r.Floor("per-job.", 3)
-	r.Floor("reserved.", 2)
-}
-
-func checkUpstreamMerge(w *World, r *Report) {
-	var vp *ssa.Package
-	for _, p := range w.Prog.AllPackages() {
-		if strings.HasSuffix(p.Pkg.Path(), "taskctl/pkg/variables") {
-			vp = p
-		}
-	}
-	if vp == nil {
-		r.Undecided("order.upstream-merge", "upstream variables package", "-", "not loaded")
-		return
-	}
-	m := w.FuncByNameIn(vp, "Variables).Merge")
-	if m == nil {
-		r.Undecided("order.upstream-merge", "upstream Variables.Merge", "-", "not found")
-		return
-	}
-	var rRecv, rArg ssa.Instruction
-	allInstrs(m, func(in ssa.Instruction) {
-		if rg, ok := in.(*ssa.Range); ok {
-			ap := w.AP(rg.X)
-			if strings.HasSuffix(ap, "Variables).Map(recv)") {
-				rRecv = in
-			}
-			if ap == "arg0.Map()" {
-				rArg = in
-			}
-		}
-	})
-	// the argument's range is after the receiver's: not reachable back from the argument loop
-	ok := rRecv != nil && rArg != nil && !(PathQuery{Fn: m, Start: []ssa.Instruction{rArg}, Target: func(x ssa.Instruction) bool { return x == rRecv }}).Find().Found &&
-		(PathQuery{Fn: m, Start: []ssa.Instruction{rRecv}, Target: func(x ssa.Instruction) bool { return x == rArg }}).Find().Found
-	// every return passes the argument loop
-	esc := PathQuery{Fn: m, Target: isReturn, BlockInstr: func(x ssa.Instruction) bool { return x == rArg }}.Find()
-	r.Check(ok && !esc.Found, "order.upstream-merge", "upstream variables.Merge: argument applied after the receiver", w.Pos(m.Pos()), "entries of the receiver are set first, then the argument's (the argument wins)", "upstream Merge no longer applies the argument after the receiver: the modelled precedence is wrong")
-	wi := w.FuncByNameIn(vp, "Variables).With")
-	if wi != nil {
-		pr := w.EnumPaths(wi, EnumOpts{})
-		okW := false
-		for _, p := range pr.Paths {
-			mi, si := -1, -1
-			for i, e := range p.Effects {
-				if e.Kind == "call" && strings.HasSuffix(e.Target, "Variables).Merge") {
-					mi = i
-				}
-				if e.Kind == "call" && strings.HasSuffix(e.Target, "Variables).Set") && strings.HasSuffix(e.Val, ",arg0,arg1") {
-					si = i
-				}
-			}
-			okW = mi >= 0 && si > mi
-		}
-		r.Check(okW, "order.upstream-with", "upstream variables.With: copy then set", w.Pos(wi.Pos()), "With copies the receiver and then sets the key (the new value wins)", "upstream With no longer sets the key after copying")
-	}
-}
-
-// FuncByNameIn finds a function or method by name in an arbitrary SSA package.
-func (w *World) FuncByNameIn(p *ssa.Package, name string) *ssa.Function {
-	for fn := range w.allFuncs() {
-		if fn.Package() == p && strings.HasSuffix(FuncName(fn), name) && fn.Synthetic == "" {
-			return fn
-		}
-	}
-	return nil
-}
-
-var _ = fmt.Sprint
-
-// deepCalls visits the calls of fn and of the module functions fn calls statically (depth ≤ max);
-// during a visit inside a helper its parameters are bound to what the call site passes, so access
-// paths are rendered in fn's terms.
-func (w *World) deepCalls(fn *ssa.Function, max int, visit func(c *ssa.Call)) {
-	saved := w.paramEnv
-	defer func() { w.paramEnv = saved }()
-	var rec func(f *ssa.Function, env map[*ssa.Parameter]ssa.Value, d int)
-	rec = func(f *ssa.Function, env map[*ssa.Parameter]ssa.Value, d int) {
-		allInstrs(f, func(in ssa.Instruction) {
-			c, ok := in.(*ssa.Call)
-			if !ok {
-				return
-			}
-			w.paramEnv = env
-			visit(c)
-			g := c.Call.StaticCallee()
-			if g == nil || g.Blocks == nil || !w.InModule(g) || g == f || d >= max {
-				return
-			}
-			sub := map[*ssa.Parameter]ssa.Value{}
-			for k, v := range env {
-				sub[k] = v
-			}
-			for i, p := range g.Params {
-				if i < len(c.Call.Args) {
-					sub[p] = w.Resolve(c.Call.Args[i])
-				}
-			}
-			rec(g, sub, d+1)
-			w.paramEnv = env
-		})
-	}
-	rec(fn, saved, 0)
 }
